@@ -46,6 +46,14 @@ def assert_guards(b, bb):
     return out
 
 
+def const_of(t):
+    try:
+        v = q.eval_term(t, {})
+        return v if isinstance(v, int) and not isinstance(v, bool) else -1
+    except Exception:
+        return -1
+
+
 def is_count(t, which):
     t = strip_casts(t)
     if which == 'layers':
@@ -427,21 +435,69 @@ def discharge(ctx, I, s, handles, need):
         if fb:
             rt = res(fb[0]).ret()
             u16s = rt[0] == 'tuple' and all(x[0] == 'cast' and x[2] == 'u16' and x[3] == 'u32' for x in rt[1])
-        if kind in ('overflow:Add', 'overflow:Sub', 'div0'):
-            return U('U4', ok4 and u16s, 'tile width/height are zero-extended u16 fields >= 1, so pw + tw - 1 fits u32, does not underflow and the divisor is not 0: ' + why4)
+        def from_ts(t):
+            return any(x[0] == 'call' and x[1].startswith('std::convert::From::from') and 'TileSize' in x[1] for x in walk(t)) or \
+                any(x[0] == 'call' and x[1].startswith('std::convert::Into::into') and any(
+                    y[0] == 'call' and y[1].endswith('Tileset::tile_size') for y in walk(x)) for x in walk(t)) or \
+                any(x[0] == 'call' and x[1] in ('asefile::tileset::TileSize::width', 'asefile::tileset::TileSize::height') for x in walk(t))
+
+        def canvas(t):
+            t = strip_casts(t)
+            return t[0] == 'call' and t[1] in (AF + 'width', AF + 'height') or is_param_path(t, 0, ['width']) or is_param_path(t, 0, ['height'])
+        if kind == 'overflow:Add':
+            a_, b_ = d['a_term'], d['b_term']
+            shape = d.get('ty') in ('u32', 'u64', 'usize') and (canvas(a_) and from_ts(b_) or canvas(b_) and from_ts(a_))
+            return U('U4', ok4 and u16s and shape, 'canvas size (<= 65535) + tile size (zero-extended u16) computed in %s cannot overflow: %s' % (d.get('ty'), why4))
+        if kind == 'overflow:Sub':
+            a_ = strip_casts(d['a_term'])
+            shape = d.get('ty') in ('u32', 'u64', 'usize') and d.get('b') == (1, 1) and a_[0] == 'bin' and a_[1] == 'Add' and \
+                (from_ts(a_[2]) or from_ts(a_[3]))
+            return U('U4', ok4 and u16s and shape, '(canvas + tile size) - 1 with tile size >= 1 does not underflow: ' + why4)
+        if kind == 'div0':
+            shape = d.get('term') is not None and from_ts(d['term'])
+            return U('U4', ok4 and u16s and shape, 'the divisor is the tile width/height, >= 1: ' + why4)
         if kind == 'panic:assert':
-            return U('U4', ok4 and u16s, 'w = ceil(canvas width / tile width) <= canvas width <= 65535 because tile width >= 1: ' + why4)
+            gs, seen, work = [], set(), [s.bb]
+            while work:
+                x = work.pop()
+                if x in seen:
+                    continue
+                seen.add(x)
+                for p_ in b.cfg.pred[x]:
+                    tp = b.blocks[p_]['term']
+                    if tp and tp['k'] == 'switch':
+                        gs.append(q.switch_cond(b, p_))
+                    else:
+                        work.append(p_)
+            # every controlling test is `ceil-quotient < 65536` (or a wider bound)
+            shape = bool(gs) and all(c_[0] == 'bin' and c_[1] == 'Lt' and strip_casts(c_[2])[0] == 'bin' and strip_casts(c_[2])[1] == 'Div' and
+                                     from_ts(strip_casts(c_[2])[3]) and const_of(c_[3]) >= 65536 for c_ in gs)
+            return U('U4', ok4 and u16s and shape, 'w = ceil(canvas width / tile width) <= canvas width <= 65535 because tile width >= 1: ' + why4)
     if fn == 'asefile::tilemap::Tilemap::tile_offsets' and kind == 'div0':
         ok4, why4 = need('I4')
-        return U('U4', ok4 and handles['tilemap'], 'divides by the tile size of the handle\'s tileset: ' + why4)
+        dt = strip_casts(d['term']) if d.get('term') is not None else ('unknown',)
+        shape = dt[0] == 'call' and dt[1] in ('asefile::tileset::TileSize::width', 'asefile::tileset::TileSize::height') and \
+            any(x[0] == 'call' and x[1].endswith('Tileset::tile_size') for x in walk(dt))
+        return U('U4', ok4 and handles['tilemap'] and shape, 'divides by the tile width/height of the handle\'s tileset: ' + why4)
     if fn == 'asefile::tilemap::Tilemap::tilemap':
         return U('U2', handles['tilemap'], 'Tilemap handles are built only under cel.is_tilemap(), so raw_cel() is Some and its content is Tilemap')
     if fn in ('asefile::tilemap::Tilemap::tile', 'asefile::tilemap::TilemapData::tile') and kind == 'ext:index':
         ok5, why5 = need('I5')
         g_ = assert_guards(b, s.bb)
         # guarded by x < w and y < h (as negated early-return tests) and x,y >= 0
-        okg = sum(1 for op, a, c in g_ if op == 'Lt') >= 2
-        return U('U4', ok5 and okg, 'tiles[y*w + x] under the guards x < w, y < h with tiles.len() = w*h: ' + why5)
+        idx = strip_casts(at[1])
+        okg = False
+        if idx[0] == 'bin' and idx[1] == 'Add' and strip_casts(idx[2])[0] == 'bin' and strip_casts(idx[2])[1] == 'Mul':
+            mul = strip_casts(idx[2])
+            yy, ww, xx = strip_casts(mul[2]), strip_casts(mul[3]), strip_casts(idx[3])
+
+            def dim(t, nm):
+                t = strip_casts(t)
+                return (t[0] == 'call' and t[1] == 'asefile::tilemap::TilemapData::' + nm) or is_param_path(t, 1, [nm])
+            okg = dim(ww, 'width') and any(op == 'Lt' and a == xx and dim(c, 'width') for op, a, c in g_) and \
+                any(op == 'Lt' and a == yy and dim(c, 'height') for op, a, c in g_) and \
+                all(any(op == 'Ge' and a == v and q.const_val(c) == 0 for op, a, c in g_) for v in (xx, yy) if v[0] == 'bin' and v[1] == 'Sub')
+        return U('U4', ok5 and okg, 'tiles[y*w + x] with w the tilemap width, under the guards 0 <= x < w, 0 <= y < h, tiles.len() = w*h: ' + why5)
     if fn.endswith('tile::Tiles as std::ops::Index>::index'):
         g = CG.get(fx)
         cs = sorted(fx.by_path[p].name.split('::')[-2] + '::' + fx.by_path[p].name.split('::')[-1] for p in g.callers(b.path))
@@ -449,7 +505,11 @@ def discharge(ctx, I, s, handles, need):
     if fn == 'asefile::tileset::Tileset::image':
         if kind == 'overflow:Mul':
             ok_, why = need('I6', 'I4')
-            return U('U4', ok_, 'tile_height * tile_count <= tile_count*tw*th <= u32::MAX: ' + why)
+            a_, b_ = strip_casts(d['a_term']), strip_casts(d['b_term'])
+            shape = d.get('ty') in ('u32', 'u64', 'usize') and {True} == {
+                any(x[0] == 'call' and x[1] == 'asefile::tileset::TileSize::height' for x in (a_, b_)),
+                any(is_param_path(x, 1, ['tile_count']) for x in (a_, b_))}
+            return U('U4', ok_ and shape, 'tile_height * tile_count (in %s) <= tile_count*tw*th <= u32::MAX: %s' % (d.get('ty'), why))
         if kind == 'ext:expect' and 'from_raw' in what:
             ok_, why = need('I6')
             return U('U4', ok_, 'from_raw(tw, th*count, 4 bytes per pixel of all pixels): buffer length matches: ' + why)
